@@ -337,3 +337,47 @@ def before_execute(which: int, k: int, as_dict: bool) -> bool:
     except snowflake.connector.NotSupportedError:
         return done(which == 3)
     return done(False)
+
+
+# ------------------------------------------------------------------ a statement that is answered without reaching the normal path (nop_regexes) is a new execute too
+def _after_noop(n1: int, k: int, use_one: bool, as_dict: bool, kind: int) -> bool:
+    from snowflake.connector.cursor import SnowflakeCursor
+
+    from vf.session import instance, std_engine
+
+    eng = std_engine()
+    conn = instance(eng, nop_regexes=[r"^call\s"]).connect(database="db1", schema="s1")
+    cur = conn.cursor(DictCursor if as_dict else SnowflakeCursor)
+    eng.query_result = StubTable(["A", "B"], [(100 + r, 200 + r) for r in range(n1)])
+    cur.execute("select a, b from t1")
+    if k:
+        if use_one:
+            cur.fetchone()
+        else:
+            cur.fetchmany(k)
+    stmt = ["call my_proc(1)", "set v9 = 1", "alter table t1 cluster by (a)", "use schema s2", "begin"][kind]
+    cur.execute(stmt)
+    want = [{"status": "Statement executed successfully."}] if as_dict else [("Statement executed successfully.",)]
+    if cur.rowcount != 1:
+        return False
+    got = cur.fetchall()
+    if as_dict:
+        got = [{str(kk).lower(): v for kk, v in r.items()} for r in got]
+    return got == want and cur.fetchone() is None and list(cur.fetchall()) == []
+
+
+@ob(
+    "C05.status_statements_replace_the_result_too",
+    encodes=["fakesnow.cursor.FakeSnowflakeCursor.execute (nop_regexes short-circuit, no-op rewrites) / _execute (result reset)", "fetchone/fetchmany/fetchall"],
+    bounds="a first result of n1 <= 3/5 rows from which k <= 4/6 rows were fetched (fetchone or fetchmany), then a statement answered with the success "
+    "status - a nop_regexes match, SET, CLUSTER BY no-op, USE SCHEMA, BEGIN - on the same cursor: its one status row is handed out once, then nothing",
+    timeout=(200, 600),
+    stubs=["K1/K2 vf.duckstub.Engine", "K5 StubTable"],
+)
+def after_noop(n1: int, k: int, use_one: bool, as_dict: bool, kind: int) -> bool:
+    """
+    pre: 0 <= n1 <= N and 0 <= k <= S and 0 <= kind <= 4
+    post: _
+    """
+    P = fast.pick
+    return done(fast.native(_after_noop, P(n1, N + 1), P(k, S + 1), bool(P(use_one, 2)), bool(P(as_dict, 2)), P(kind, 5)))
